@@ -95,8 +95,15 @@ def rp_stub(frame, spacing=None, intensity_image=None, **extra):
     return out
 
 
-def iou_stub(f1, f2):
-    """contract of _compute_ious: (l1, l2, |l1 & l2| / |l1 | l2|) for every label pair with overlap"""
+_IOU_X = z3.Function("IOU_called_with_extra_arguments", z3.IntSort(), z3.IntSort(), z3.RealSort())
+
+
+def iou_stub(f1, f2, *xa, **extra):
+    """contract of _compute_ious: (l1, l2, |l1 & l2| / |l1 | l2|) for every label pair with overlap (a call with
+    more than the two frames is outside the contract: different uninterpreted function, decided by the replay)"""
+    fn = _IOU_X if (xa or extra) else _IOU
+    if xa or extra:
+        cur().tag("iou_stub:extra_arguments")
     f1 = _as_sarr(f1) if isinstance(f1, np.ndarray) else f1
     f2 = _as_sarr(f2) if isinstance(f2, np.ndarray) else f2
     if not isinstance(f1, SArr) or not isinstance(f2, SArr):
@@ -110,7 +117,7 @@ def iou_stub(f1, f2):
             inter = count(And(x == a, y == b) for x, y in zip(c1, c2))
             if cur().decide(inter > 0):
                 union = count(Or(x == a, y == b) for x, y in zip(c1, c2))
-                out.append((a, b, SReal(_IOU(inter, union))))
+                out.append((a, b, SReal(fn(inter, union))))
     return out
 
 
